@@ -16,6 +16,8 @@ import time
 
 VERIF = os.path.dirname(os.path.dirname(os.path.abspath(__file__)))
 SEEDED = os.path.join(VERIF, "seeded")
+# (a scratch copy of /verif next to a worktree of /repo can run this without occupying /repo itself)
+REPO = os.environ.get("AGV_REPO", "/repo")
 
 
 def sh(cmd, **kw):
@@ -36,7 +38,7 @@ def main():
         tier = sys.argv[sys.argv.index("--tier") + 1]
         args = [a for a in args if a != tier]
     ids = args or sorted(d for d in os.listdir(SEEDED) if os.path.isfile(os.path.join(SEEDED, d, "patch.diff")))
-    st = sh(["git", "-C", "/repo", "status", "--porcelain"]).stdout.strip()
+    st = sh(["git", "-C", REPO, "status", "--porcelain"]).stdout.strip()
     if st:
         print("refusing: /repo has uncommitted changes:\n" + st)
         return 2
@@ -46,14 +48,14 @@ def main():
         d = os.path.join(SEEDED, sid)
         meta = json.load(open(os.path.join(d, "meta.json")))
         patch = os.path.join(d, "patch.diff")
-        ap = sh(["git", "-C", "/repo", "apply", patch])
+        ap = sh(["git", "-C", REPO, "apply", patch])
         if ap.returncode != 0:
-            ap = sh(["git", "-C", "/repo", "apply", "--3way", patch])
+            ap = sh(["git", "-C", REPO, "apply", "--3way", patch])
         if ap.returncode != 0:
             print(f"{sid}: patch does not apply: {ap.stderr[:300]}")
             results[sid] = {"applied": False, "error": ap.stderr[:500]}
-            sh(["git", "-C", "/repo", "reset", "-q", "HEAD", "--", "."])
-            sh(["git", "-C", "/repo", "checkout", "--", "."])
+            sh(["git", "-C", REPO, "reset", "-q", "HEAD", "--", "."])
+            sh(["git", "-C", REPO, "checkout", "--", "."])
             continue
         entry = {"applied": True, "property": meta["property"], "checks": {}}
         # evidence files are rewritten by every check run: keep the ones of the unchanged tree
@@ -76,9 +78,9 @@ def main():
                     if rp and os.path.exists(os.path.join(VERIF, rp[0])):
                         shutil.copy(os.path.join(VERIF, rp[0]), os.path.join(d, f"caught-by-{pid}.json"))
         finally:
-            sh(["git", "-C", "/repo", "reset", "-q", "HEAD", "--", "."])
-            sh(["git", "-C", "/repo", "checkout", "--", "."])
-            sh(["git", "-C", "/repo", "clean", "-fdq", "crates"])
+            sh(["git", "-C", REPO, "reset", "-q", "HEAD", "--", "."])
+            sh(["git", "-C", REPO, "checkout", "--", "."])
+            sh(["git", "-C", REPO, "clean", "-fdq", "crates"])
             for ev, content in saved.items():
                 open(ev, "w").write(content)
             # replays written while the seeded change was applied do not describe /repo
